@@ -61,11 +61,15 @@ def stepCall (st : CState) (j : Json) : R (Except Err (CState × Json)) := do
   | "q_mkeys" => return .ok (st, jList jNat (sortNat (allMkeys st.moments)))
   | "q_next" =>
     let qs ← listF asNat j "qubits"; let s ← natF j "start"
-    return .ok (st, jOptNat (nextMomentOperatingOn st.moments qs s))
+    match optF j "max_distance" with
+    | some d => return .ok (st, jOptNat (nextMomentWithin st.moments qs s ((asNat d).toOption.getD 0)))
+    | none => return .ok (st, jOptNat (nextMomentOperatingOn st.moments qs s))
   | "q_prev" =>
     let qs ← listF asNat j "qubits"
     let e := match optF j "end" with | some e => (asNat e).toOption.getD st.moments.length | none => st.moments.length
-    return .ok (st, jOptNat (prevMomentOperatingOn st.moments qs e))
+    match optF j "max_distance" with
+    | some d => return .ok (st, jOptNat (prevMomentWithin st.moments qs e ((asNat d).toOption.getD 0)))
+    | none => return .ok (st, jOptNat (prevMomentOperatingOn st.moments qs e))
   | "q_earliest" =>
     let o ← pOp (← field j "op")
     let e := match optF j "end" with | some e => (asNat e).toOption.getD st.moments.length | none => st.moments.length
